@@ -20,6 +20,11 @@ THEOREMS = [
     "Mashu.Resolve.specific_key_wins",
     "Mashu.Resolve.key_order_pinned",
     "Mashu.Resolve.source_order_pinned",
+    "Mashu.Subst.substImpl_deep_eq_subst",
+    "Mashu.Subst.annotated_key_substituted",
+    "Mashu.Subst.pySubscript_eq",
+    "Mashu.Subst.shallow_annotated_keeps_variable",
+    "Mashu.Subst.subst_annotated_recursive_pinned",
 ]
 RULE = (
     "subset of the 14 customization levels for one field (2 unkeyed field levels + 4 keyed levels x 3 type keys), each level registers a marker function for both directions, "
@@ -231,9 +236,95 @@ def run_batch(ctx, batch):
             ctx.disagreement(case, list(imp), list(real), "resolve")
 
 
+# ---------------------------------------------------------------------------------------
+# binding type parameters in a field type (Mashu.Subst): helpers.substitute_type_params vs the model
+# ---------------------------------------------------------------------------------------
+
+_TVS = [typing.TypeVar(f"S10_{i}") for i in range(4)]
+_CONS = {"List": (typing.List, 1), "Set": (typing.Set, 1), "Dict": (typing.Dict, 2), "Tuple": (typing.Tuple, None), "Optional": (typing.Optional, 1)}
+_ORIGIN_NAME = {list: "List", set: "Set", dict: "Dict", tuple: "Tuple"}
+
+
+def gen_gty(rng, depth, allow_var=True, top=True):
+    r = rng.random()
+    if depth <= 0 or r < 0.25:
+        if allow_var and rng.random() < 0.6:
+            return ["var", rng.randrange(3)]
+        return ["app", rng.choice(["int", "str", "bytes"]), []]
+    if r < 0.5:
+        inner = gen_gty(rng, depth - 1, allow_var, False)
+        if inner[0] == "ann":          # Annotated[Annotated[X, a], b] is flattened by typing itself
+            inner = inner[1]
+        return ["ann", inner, rng.choice(["k", "tag"])]
+    con = rng.choice(["List", "Set", "Dict", "Tuple", "List"])
+    n = _CONS[con][1] or rng.randint(1, 3)
+    return ["app", con, [gen_gty(rng, depth - 1, allow_var, False) for _ in range(n)]]
+
+
+def real_gty(g):
+    if g[0] == "var":
+        return _TVS[g[1]]
+    if g[0] == "ann":
+        return typing.Annotated[real_gty(g[1]), g[2]]
+    if not g[2]:
+        return {"int": int, "str": str, "bytes": bytes}[g[1]]
+    args = tuple(real_gty(a) for a in g[2])
+    return _CONS[g[1]][0][args if len(args) > 1 else args[0]]
+
+
+def unreal_gty(t):
+    if isinstance(t, typing.TypeVar):
+        return ["var", _TVS.index(t)]
+    if typing.get_origin(t) is typing.Annotated:
+        inner, *meta = typing.get_args(t)
+        return ["ann", unreal_gty(inner), meta[0]] if len(meta) == 1 else ["ann?", repr(t)]
+    if t in (int, str, bytes):
+        return ["app", t.__name__, []]
+    o = typing.get_origin(t)
+    if o in _ORIGIN_NAME:
+        return ["app", _ORIGIN_NAME[o], [unreal_gty(a) for a in typing.get_args(t)]]
+    return ["?", repr(t)]
+
+
+def run_subst(ctx, n):
+    from mashumaro.core.meta.helpers import substitute_type_params
+
+    rng = ctx.rng
+    lines, metas = [], []
+    fixed = [
+        (["ann", ["app", "List", [["var", 0]]], "k"], [[0, ["app", "int", []]]]),
+        (["ann", ["var", 0], "k"], [[0, ["app", "int", []]]]),
+        (["app", "Dict", [["app", "str", []], ["ann", ["app", "List", [["var", 1]]], "k"]]], [[1, ["app", "int", []]]]),
+        (["ann", ["app", "Dict", [["var", 0], ["ann", ["var", 1], "tag"]]], "k"], [[0, ["app", "str", []]], [1, ["app", "List", [["var", 0]]]]]),
+    ]
+    cases = fixed + [(gen_gty(rng, rng.randint(1, 4)), [[v, gen_gty(rng, rng.randint(0, 2), allow_var=rng.random() < 0.3)] for v in rng.sample(range(3), rng.randint(0, 3))]) for _ in range(n)]
+    for g, sigma in cases:
+        # (typing itself flattens Annotated[Annotated[X, a], b]: a bound value is never an Annotated at its top)
+        sigma = [[v, t[1] if t[0] == "ann" else t] for v, t in sigma]
+        case = {"subst": g, "sigma": sigma}
+        try:
+            real = substitute_type_params(real_gty(g), {_TVS[v]: real_gty(t) for v, t in sigma})
+            got = unreal_gty(real)
+        except Exception as e:  # noqa
+            ctx.violation(case, {"error": f"{type(e).__name__}: {e}"[:200]}, "substitution of bound type parameters is defined", "substitute_type_params raised", lambda f: False)
+            continue
+        lines.append({"op": "subst", "ty": g, "sigma": sigma})
+        metas.append((case, got))
+    outs = ctx.model(lines) if lines else []
+    for (case, got), m in zip(metas, outs or []):
+        nested = case["subst"][0] == "ann" and case["subst"][1][0] != "var" or "ann" in repr(case["subst"][1:])
+        ctx.count(case, bool(nested), kind="subst")
+        if got != m.get("spec"):
+            ctx.violation(case, {"substituted": got, "full_substitution": m.get("spec")},
+                          "every customization key of a specialised generic field is computed from the fully substituted field type", "a bound type variable is left in the key", lambda f: False)
+        elif got != m.get("impl"):
+            ctx.disagreement(case, m.get("impl"), got, "substitute_type_params")
+
+
 def run(ctx):
     ctx.rule = RULE
     ctx.lean_check("Mashu.Props.C10", THEOREMS, extra_targets=["Mashu.Dispatch"])
+    run_subst(ctx, 600 if ctx.tier == "quick" else 8000)
     rng = ctx.rng
     if ctx.tier == "quick":
         n = 2500
@@ -263,5 +354,14 @@ def run(ctx):
 
 def replay(ctx, body):
     c = body["case"]
+    if "subst" in c:
+        from mashumaro.core.meta.helpers import substitute_type_params
+
+        real = substitute_type_params(real_gty(c["subst"]), {_TVS[v]: real_gty(t) for v, t in c["sigma"]})
+        out = ctx.model([{"op": "subst", "ty": c["subst"], "sigma": c["sigma"]}])
+        ctx.count(c, True)
+        if out and unreal_gty(real) != out[0].get("spec"):
+            ctx.violation(c, {"substituted": unreal_gty(real), "full_substitution": out[0].get("spec")}, "keys computed from the fully substituted field type", "a bound type variable is left in the key", lambda f: False)
+        return ctx.finish()
     run_batch(ctx, [(c["levels"], c["entry"], c.get("shape", "plain"))])
     return ctx.finish()
